@@ -388,7 +388,61 @@ class Gen:
         return st
 
     def stmts(self, n, depth):
-        return [self.stmt(depth) for _ in range(n)]
+        out = []
+        for _ in range(n):
+            if self.o.get('bait') and self.r.random() < 0.25:
+                out.extend(self.bait())
+            else:
+                out.append(self.stmt(depth))
+        return out
+
+    def bait(self):
+        """statement sequences that re-read an operand after something changed it: what a
+        peephole optimiser with stale register knowledge gets wrong"""
+        r = self.r
+        V = lambda n: ('var', n)
+        N = lambda n: ('num', n)
+        asg = lambda lv, e: ('expr', ('asg', '=', lv, e))
+        u = lambda: V(r.choice(self.uchars))
+        reg = r.choice(['X', 'Y'])
+        if self.in_loop and reg not in self.free_counters:
+            reg = None
+        k = r.randrange(9)
+        rmw = lambda lv: ('expr', r.choice([('inc', r.choice(['++x', 'x++', '--x', 'x--']), lv),
+                                             ('asg', r.choice(['<<=', '>>=']), lv, N(1)),
+                                             ('asg', r.choice(['+=', '-=', '^=']), lv, N(r.randrange(1, 9)))]))
+        if k == 0 and self.shorts and reg:
+            s_ = V(r.choice(self.shorts))
+            e = r.choice([('bin', '>>', s_, N(8)), s_])
+            return [asg(V(reg), e), rmw(s_), asg(V(reg), e)]
+        if k == 1 and reg:
+            v = V(r.choice(self.uchars + self.schars))
+            e = r.choice([v, ('bin', '>>', v, N(1)), ('bin', '<<', v, N(1))])
+            return [asg(V(reg), e), asg(u(), v), asg(u(), N(1))]
+        if k == 2 and self.arrays and reg:
+            a = r.choice(self.arrays)
+            other = 'Y' if reg == 'X' else 'X'
+            cell = ('idx', a, V(other))
+            return [asg(V(reg), cell), rmw(('idx', a, N(r.randrange(8)))), asg(V(reg), cell)]
+        if k == 3 and reg:
+            v = u()
+            return [asg(V(reg), v), rmw(v), asg(V(reg), v)]
+        if k == 4 and reg and self.o['hw']:
+            v = u()
+            return [('load', v), ('expr', ('inc', r.choice(['x++', 'x--']), V(reg))),
+                    ('if', v, ('block', [asg(u(), N(1))]), None)]
+        if k == 5:
+            v, w = u(), u()
+            return [asg(v, w), ('if', v, ('block', [asg(u(), N(2))]), ('block', [asg(u(), N(3))]))]
+        if k == 6 and reg:
+            v = u()
+            return [asg(v, V(reg)), ('if', r.choice([v, ('bin', '==', v, N(0))]), ('block', [asg(u(), N(4))]), None)]
+        if k == 7 and reg:
+            v = u()
+            return [asg(V(reg), v), rmw(V(reg)), asg(u(), V(reg)), asg(V(reg), v)]
+        v = u()
+        return [asg(v, ('bin', '+', v, N(1))), ('if', ('bin', r.choice(['==', '!=']), v, N(r.choice([0, 1]))),
+                                                ('block', [asg(u(), N(5))]), None)]
 
 
 def gen_program(rng, opts=None):
